@@ -2053,6 +2053,8 @@ impl TypeChecker {
             }
 
             (Type::Tuple(xs), Type::Unknown) => {
+                // The result of dividing a tuple cannot be one of its own components.
+                self.check_not_inside(span, b, a)?;
                 let tys = xs.iter().map(|_| self.push_type(Type::Unknown)).collect();
                 let tuple = self.push_type(Type::Tuple(tys));
                 self.unify(span, ctx, b, tuple)?;
